@@ -257,6 +257,7 @@ func init() {
 			guard(r, func() { ruleEmitFields(r) })
 			guard(r, func() { ruleChannelClone(r) })
 			guard(r, func() { ruleCopies(r) })
+			guard(r, func() { ruleFreeCallers(r) }) // an offset released twice un-fills another writer's committed row on the primary only: nothing is emitted for it
 			guard(r, func() { ruleReplay(r) })
 			guard(r, func() { ruleReplayOrder(r) })
 			guard(r, func() { ruleStorageArms(r) })
